@@ -49,7 +49,9 @@ func propRegistry() map[string]PropSpec {
 			{Pkg: "server", Fn: "Harness_C03_maxage_presence", Init: []string{"util", "server"}, Reach: []string{"C03.maxage.end"}},
 			{Pkg: "server", Fn: "Harness_C03_maxage_twolines", Init: []string{"util", "server"}, Reach: []string{"C03.maxage.end"}},
 			{Pkg: "server", Fn: "Harness_C03_age_overflow", Init: []string{"util", "server"}, Reach: []string{"C03.age.end"}},
+			{Pkg: "server", Fn: "Harness_C03_structured", Init: []string{"util", "server"}, Reach: []string{"C03.struct.end"}},
 			{Pkg: "server", Fn: "Harness_C03_maxage_thorough", Init: []string{"util", "server"}, Tier: "thorough", Reach: []string{"C03.maxage.end"}},
+			{Pkg: "server", Fn: "Harness_C03_structured_thorough", Init: []string{"util", "server"}, Tier: "thorough", Reach: []string{"C03.struct.end"}},
 		},
 		Explanation: "Bounded symbolic execution of the real server.getCacheMaxAge (go/ssa of /repo's current source) against a short reference model written in the harness (differential oracle). Cache-Control, Age and Set-Cookie values are arbitrary ASCII byte strings up to the stated lengths (the length is case-split, the bytes are SMT variables); the regular expressions are taken from the real regexp.MustCompile literals and encoded as symbolic NFA simulations; strconv.Atoi is an engine intrinsic validated differentially. Every assertion instance is an SMT query (path condition AND NOT assertion) that z3 must answer unsat.",
 		Assumptions: []string{
@@ -81,9 +83,47 @@ func propRegistry() map[string]PropSpec {
 	})
 
 	add(PropSpec{
+		ID: "C06",
+		Harnesses: []HarnessSpec{
+			{Pkg: "server", Fn: "Harness_C06_injective", Init: initServer, Reach: []string{"C06.injective.end"}, EngineOnly: true},
+			{Pkg: "server", Fn: "Harness_C06_methods", Init: initServer, Reach: []string{"C06.methods.end"}},
+			{Pkg: "cache", Fn: "Harness_C06_lookup", Init: initCache, Reach: []string{"C06.lookup.end"}, EngineOnly: true},
+		},
+		Explanation: "Symbolic execution of the real server.getKey on two arbitrary requests (method, host, request-URI as symbolic byte strings): equal keys imply equal triples (injectivity), the key buffer is fresh and exactly sized. The shard lookup (real dispatcher, groupcache/lru and container/list from SSA) is run with the hash function uninterpreted, i.e. for every hash function and therefore every collision pattern, on two arbitrary keys with evictions (two zones of one entry).",
+		Assumptions: []string{
+			"method and Host contain no SP and the request-URI is non-empty (HTTP request-line syntax enforced by net/http before pike sees the request)",
+			"lengths: method <= 2, host <= 2, URI <= 3 bytes for injectivity (the code is length-generic: copy + offsets); keys <= 2 bytes for the lookup history",
+			"runtime.memhash is an uninterpreted function of the key bytes (deterministic within a process)",
+			"sequential shard operations; the shard mutex discipline is under C20",
+		},
+		Encoded: []string{"server.getKey", "server.requestIsPass", "cache.(*dispatcher).GetHTTPCache", "cache.(*dispatcher).RemoveHTTPCache", "cache.(*dispatcher).getLRU", "cache.(*httpLRUCache).getCache", "cache.(*httpLRUCache).addCache", "cache.byteSliceToString"},
+		Bounds:  map[string]string{"method": "<=2 bytes", "host": "<=2 bytes", "uri": "1..3 bytes", "lookup history": "k1,k1,k2,k1,remove k2,k2 on 2 zones x 1 entry, any hash"},
+	})
+
+	add(PropSpec{
+		ID: "C09",
+		Harnesses: []HarnessSpec{
+			{Pkg: "cache", Fn: "Harness_C09_roundtrip", Init: initCache, Reach: []string{"C09.roundtrip.end"}},
+			{Pkg: "cache", Fn: "Harness_C09_truncation", Init: initCache, Reach: []string{"C09.truncation.end"}},
+			{Pkg: "cache", Fn: "Harness_C09_garbage", Init: initCache, Reach: []string{"C09.garbage.accepted", "C09.garbage.rejected"}},
+			{Pkg: "cache", Fn: "Harness_C09_garbage_response", Init: initCache, Reach: []string{"C09.garbage-response.end"}},
+		},
+		Explanation: "Bounded symbolic execution of the real (*httpCache).Bytes/FromBytes and (*HTTPResponse).Bytes/FromBytes. Round trip: every entry within the bounds (timestamps, status code, min length as full 64-bit values; body bytes symbolic) decodes to an observably equal entry and re-encodes to the same bytes. Garbage: every byte string up to 64 bytes (content = an uninterpreted function of the position, length symbolic) decodes without panic and without an allocation sized by a decoded length. Truncation: every proper prefix of a valid record is rejected.",
+		Assumptions: []string{
+			"encoding/json Marshal/Unmarshal of http.Header and regexp String/Compile are uninterpreted inverse pairs (invalid UTF-8 in header values is rewritten by encoding/json and is outside the claim)",
+			"bytes.Buffer.Next, binary.Read, binary.BigEndian.PutUint32/64, bytes.Join are engine intrinsics over the slice model",
+			"round trip bounds: bodies <= 2 bytes each (4 thorough), compress profile name <= 1 byte (2 thorough), header sets {nil, empty, 3 concrete entries incl. multi-valued and non-ASCII}; status in the enum range 0..4, status code 0..999",
+			"garbage bound: records <= 64 bytes (80 thorough), responses <= 48 bytes",
+		},
+		Encoded: []string{"cache.(*httpCache).Bytes", "cache.(*httpCache).FromBytes", "cache.(*HTTPResponse).Bytes", "cache.(*HTTPResponse).FromBytes", "cache.uint32ToBytes", "cache.uint64ToBytes", "cache.readUint32ToInt", "cache.readUint64ToInt64"},
+		Bounds:  map[string]string{"garbage": "all byte strings of length 0..64 (80 thorough)", "round trip": "see assumptions", "truncation": "every cut offset of the records of the truncation harness"},
+	})
+
+	add(PropSpec{
 		ID: "C11",
 		Harnesses: []HarnessSpec{
 			{Pkg: "cache", Fn: "Harness_C11_arith", Init: initCache, Reach: []string{"C11.arith.end"}},
+			{Pkg: "cache", Fn: "Harness_C11_lru", Init: initCache, Reach: []string{"C11.lru.end"}, EngineOnly: true},
 		},
 		Explanation: "Full-width bit-vector check of cache.NewDispatcher's shard arithmetic for every Size 1..2^63-1 at once (two paths: 8 or 128 shards), executed from the real SSA including newHTTPLRUCache and groupcache/lru.New.",
 		Assumptions: []string{"Size >= 1 as enforced by config (validate:\"required,gt=0\")", "process memory in bytes is outside the claim (entry counts only)"},
